@@ -107,6 +107,41 @@ def zones_line(case):
     return order, "zones " + " ".join(enc_path(parts(case["streams"][i]["zone"])) for i in order)
 
 
+def tree_line(case):
+    """`treezones root | tree paths (pre-order) | label name | …` — labels split and stripped as the code does."""
+    tree = case["zone_tree"]
+    paths = _tree_paths(tree)
+    toks = ["treezones", hexs(tree["name"]), "|"] + [enc_path(p) for p in paths]
+    for st in case["streams"]:
+        comps = [x.strip() for x in st["zone"].split("/") if x.strip()]
+        toks += ["|", enc_path(comps), hexs(st["name"])]
+    return " ".join(toks)
+
+
+def compare_tree_model(case, mline, zones, rewritten):
+    if not mline.startswith("ok"):
+        return f"model: {mline}"
+    g = mline[3:].split(" | ")
+    mz = g[0].split()
+    mp = [dec_path(t) for t in g[1].split()] if len(g) > 1 else []
+    mc = (g[2].split(" ") if len(g) > 2 else [])
+    for i, st in enumerate(case["streams"]):
+        if mz[i] == "?":
+            if rewritten[i] != st["zone"]:
+                return f"stream {i}: model leaves the label {st['zone']!r}, impl rewrote it to {rewritten[i]!r}"
+        elif tuple(rewritten[i].split("/")) != dec_path(mz[i]):
+            return f"stream {i} ({st['name']}, label {st['zone']!r}): zone impl {rewritten[i]} model {'/'.join(dec_path(mz[i]))}"
+    ip = sorted(zones)
+    if ip != sorted(mp):
+        return f"tree nodes differ: impl {ip} model {sorted(mp)}"
+    for z, txt in zip(mp, mc):
+        idx = [int(x) for x in txt.split(",") if x != ""]
+        want = Counter(sig(*(case["streams"][k][f] for f in ("name", "t_supply", "t_target", "heat_flow"))) for k in idx)
+        if want != zones[z][0]:
+            return f"zone {'/'.join(z)}: impl holds {dict(zones[z][0])} model {dict(want)}"
+    return None
+
+
 def compare_model(case, order, mline, zones, rewritten):
     if not mline.startswith("ok"):
         return f"model: {mline}"
@@ -257,6 +292,9 @@ def run(ctx: Ctx):
     lines = [zones_line(c) for c in notree]
     model = dict(zip(map(id, notree), run_driver([l for _, l in lines]))) if ctx.lean.driver_ok else {}
     orders = dict(zip(map(id, notree), [o for o, _ in lines]))
+    # user-tree cases whose tree has a 'Site' root as the harness generates them (root name = project name)
+    withtree = [c for c in cases if c.get("zone_tree")]
+    tmodel = dict(zip(map(id, withtree), run_driver([tree_line(c) for c in withtree]))) if ctx.lean.driver_ok and withtree else {}
     for c in cases:
         labs = sorted({s["zone"] for s in c["streams"]})
         try:
@@ -269,6 +307,12 @@ def run(ctx: Ctx):
                   len(labs) >= 2 and len(c["streams"]) >= 3, ["tree" if c.get("zone_tree") else "no_tree", "labels=" + "|".join(labs)[:30]])
         for clause, detail, cause in oracle(c, zones, uids):
             ctx.oracle_fail(c, detail, cause, clause)
+        if id(c) in tmodel:
+            bad = compare_tree_model(c, tmodel[id(c)], zones, rewritten)
+            if bad:
+                ctx.disagree(c, None, tmodel[id(c)][:200], bad)
+            else:
+                ctx.traces_validated += 1
         if id(c) in model:
             bad = compare_model(c, orders[id(c)], model[id(c)], zones, rewritten)
             if bad:
